@@ -1404,20 +1404,15 @@ Hypothesis Hint : int_ok G.
 
 Lemma denotes_sound c te t :
   denotes L G c te t -> get_data_type_te l (Some G) (Some c) te = ROk (te, Some t).
-Proof.
+Proof using Hl Hint.
   induction 1 as [i te t Hb Ht | il b off inf bt _ IH].
-  - cbn [get_data_type_te]. destruct (text_eqb (id_val i) s_int) eqn:E.
-    + apply text_eqb_eq in E. rewrite E in Hb. destruct Hint as [te0 [Hl0 Ht0]].
-      inversion Hb as [le Hle Heq | ge Hle Hg Heq].
-      * destruct le; discriminate.
-      * rewrite Hl0 in Hg. injection Hg as <-. injection Heq as <-. congruence.
-    + rewrite Hl. apply lt_lookup_binds in Hb. rewrite Hb, Ht. reflexivity.
+  - cbn [get_data_type_te]. rewrite Hl. apply lt_lookup_binds in Hb. rewrite Hb, Ht. reflexivity.
   - cbn [get_data_type_te]. rewrite IH. reflexivity.
 Qed.
 
 Lemma get_data_type_sound c te o t :
   denotes L G c te t -> get_data_type l (Some G) (Some c) (Some (te, o)) = ROk (Some (te, o), Some t).
-Proof. intros H. unfold get_data_type. rewrite (denotes_sound _ _ _ H). reflexivity. Qed.
+Proof using Hl Hint. intros H. unfold get_data_type. rewrite (denotes_sound _ _ _ H). reflexivity. Qed.
 End Denotes.
 
 Lemma not_primitive_array t : is_primitive t = false -> is_array t.
@@ -1804,7 +1799,7 @@ Lemma rule_undefined_type c i :
   get_data_type_te l (Some G) c (TNamed i) =
   ROk (TNamed (ident_append i (name_err i (EBuild (UndefinedType (id_val i))))), None).
 Proof.
-  intros Hn Hu He. cbn [get_data_type_te]. rewrite (text_eqb_neq _ _ Hn), Hl.
+  intros Hn Hu He. cbn [get_data_type_te]. rewrite Hl.
   apply lt_lookup_unbound in Hu. rewrite Hu, (ident_flag_some _ _ He). reflexivity.
 Qed.
 
@@ -1813,7 +1808,7 @@ Lemma rule_not_a_type c i e :
   get_data_type_te l (Some G) c (TNamed i) =
   ROk (TNamed (ident_append i (name_err i (EBuild (NotAType (id_val i))))), None).
 Proof.
-  intros Hn Hb Hnt He. cbn [get_data_type_te]. rewrite (text_eqb_neq _ _ Hn), Hl.
+  intros Hn Hb Hnt He. cbn [get_data_type_te]. rewrite Hl.
   apply lt_lookup_binds in Hb. rewrite Hb.
   destruct e as [t|p|ve|ve]; try (rewrite (ident_flag_some _ _ He); reflexivity). exfalso. exact (Hnt t eq_refl).
 Qed.
